@@ -32,6 +32,7 @@ import (
 
 	"github.com/nuetzliches/hookaido/internal/app"
 	"github.com/nuetzliches/hookaido/internal/config"
+	"github.com/nuetzliches/hookaido/internal/ingress"
 	"github.com/nuetzliches/hookaido/internal/queue"
 )
 
@@ -176,6 +177,10 @@ type arStep struct {
 	N      int    `json:"n"`
 	WireB  string `json:"wire_b"`
 	NowB   int64  `json:"now_b"`
+	// a reload (of configuration ReloadCfg) completes while this request is in flight: after the handler has fetched the route's
+	// authenticator and before that authenticator looks at the request
+	ReloadInFlight bool `json:"reload_in_flight"`
+	ReloadCfg      int  `json:"reload_cfg"`
 }
 
 type arParsed struct {
@@ -460,6 +465,9 @@ type arRuntime struct {
 	cfgPath string
 	fwd     *arFwdService
 	nowHook atomic.Value // func() time.Time, overrides the plain clock when set (race step)
+	hookMu    sync.Mutex
+	afterAuth func() // run once, right after the handler fetched a route's HMAC authenticator
+	configs   []string
 }
 
 type arTeeBody struct {
@@ -577,6 +585,18 @@ func (a *arRuntime) load(text string) (bool, string) {
 			return false, err.Error()
 		}
 		a.rt = rt
+		origAuthFor := rt.Ingress.HMACAuthFor
+		rt.Ingress.HMACAuthFor = func(route string) *ingress.HMACAuth {
+			h := origAuthFor(route)
+			a.hookMu.Lock()
+			f := a.afterAuth
+			a.afterAuth = nil
+			a.hookMu.Unlock()
+			if f != nil {
+				f()
+			}
+			return h
+		}
 		ln, err := net.Listen("tcp", "127.0.0.1:0")
 		if err != nil {
 			return false, err.Error()
@@ -713,6 +733,12 @@ func (a *arRuntime) doReq(st arStep) arStepOut {
 	a.fwd.set(st.Fwd)
 	a.takeRecords()
 	out.TotalB = a.total()
+	if st.ReloadInFlight && st.ReloadCfg >= 0 && st.ReloadCfg < len(a.configs) {
+		text := a.configs[st.ReloadCfg]
+		a.hookMu.Lock()
+		a.afterAuth = func() { a.load(text) }
+		a.hookMu.Unlock()
+	}
 	if st.Hangup {
 		out.Status = a.sendHangup(raw)
 	} else {
@@ -748,7 +774,7 @@ func arRunScenario(dir string, idx int, sc arScenario, fwd *arFwdService) (res a
 		res.Err = err.Error()
 		return
 	}
-	a := &arRuntime{cfgPath: filepath.Join(d, "Hookaidofile"), seenIDs: map[string]bool{}, fwd: fwd}
+	a := &arRuntime{cfgPath: filepath.Join(d, "Hookaidofile"), seenIDs: map[string]bool{}, fwd: fwd, configs: sc.Configs}
 	defer a.close()
 	for _, st := range sc.Steps {
 		switch st.Op {
